@@ -104,6 +104,7 @@ type monState struct {
 	curCC       []byte
 	curCCType   pb.EntryType
 	curRead     []byte
+	curReportTo uint64
 	curInData   [][]byte
 	curInTypes  []pb.EntryType
 	candByTerm  map[uint64]map[uint64]bool
@@ -1359,8 +1360,52 @@ func (w *World) monElection(n *node, kind string, in *pb.Message, pre, post *raf
 			w.Stats["checkquorum-leader-ticks"]++
 		}
 	}
+	w.monReadOnlyModel(n, kind, in, pre, post, created)
+	// C17(d'): reference model of the quorum check itself. At the tick on which the
+	// leader's election timer wraps it must step down unless a quorum of the current
+	// configuration was heard from (any message) or added since the previous check.
+	if post.Role == raft.StateLeader && (pre.Role != raft.StateLeader || pre.Term != post.Term) {
+		n.cqHeard = map[uint64]bool{}
+	}
+	if pre.Role == raft.StateLeader && pre.Term == post.Term {
+		if n.cqHeard == nil {
+			n.cqHeard = map[uint64]bool{}
+		}
+		if in != nil && in.GetFrom() != 0 && in.GetFrom() != n.id && !raft.IsLocalMsgTarget(in.GetFrom()) {
+			n.cqHeard[in.GetFrom()] = true
+		}
+		for id, pp := range post.Progress {
+			if q, ok := pre.Progress[id]; !ok || (kind == "applycc" && pp.RecentActive && !q.RecentActive) {
+				n.cqHeard[id] = true
+			}
+		}
+		if kind == "tick" && pre.ElectionElapsed+1 >= E {
+			if n.cfg.CheckQuorum {
+				heard := n.cqHeard
+				w.Stats["checkquorum-rounds"]++
+				if !model.HasQuorum(func(id uint64) bool { return id == n.id || heard[id] }, voters(pre.Conf)...) {
+					w.Stats["checkquorum-rounds-without-quorum"]++
+					if post.Role == raft.StateLeader {
+						w.violate("C17", []string{"C12"}, "CheckQuorum leader %d passed its quorum check (election timer wrapped at this tick) although since the previous check it heard only from %v and no peer was added; configuration %s", n.id, keysOf(heard), confOf(pre.Conf))
+					}
+				}
+			}
+			n.cqHeard = map[uint64]bool{}
+		}
+	}
 	if pre.Role == raft.StateLeader && post.Role == raft.StateFollower && kind == "tick" {
 		w.Stats["checkquorum-stepdowns"]++
 	}
 	_ = tracker.StateProbe
+}
+
+func keysOf(m map[uint64]bool) []uint64 {
+	var out []uint64
+	for k, v := range m {
+		if v {
+			out = append(out, k)
+		}
+	}
+	sort.Slice(out, func(i, j int) bool { return out[i] < out[j] })
+	return out
 }
